@@ -272,9 +272,16 @@ class FakeTRX(Transceiver):
 		elif self.ctrl_if.verify_cmd(request, "FAKE_TOA", 2):
 			log.debug("(%s) Recv FAKE_TOA cmd" % self)
 
+			# Parse / validate threshold (random.randint() needs a valid range)
+			threshold = int(request[2])
+			if threshold < 0:
+				log.error("(%s) FAKE_TOA threshold shall not "
+					"be negative" % self)
+				return -1
+
 			# Parse and apply both base and threshold
 			self.toa256_base = int(request[1])
-			self.toa256_rand_threshold = int(request[2])
+			self.toa256_rand_threshold = threshold
 			return 0
 
 		# Timing of Arrival simulation
@@ -316,9 +323,16 @@ class FakeTRX(Transceiver):
 		elif self.ctrl_if.verify_cmd(request, "FAKE_CI", 2):
 			log.debug("(%s) Recv FAKE_CI cmd" % self)
 
+			# Parse / validate threshold (random.randint() needs a valid range)
+			threshold = int(request[2])
+			if threshold < 0:
+				log.error("(%s) FAKE_CI threshold shall not "
+					"be negative" % self)
+				return -1
+
 			# Parse and apply both base and threshold
 			self.ci_base = int(request[1])
-			self.ci_rand_threshold = int(request[2])
+			self.ci_rand_threshold = threshold
 			return 0
 
 		# C/I simulation
@@ -376,7 +390,14 @@ class FakeTRX(Transceiver):
 		elif self.ctrl_if.verify_cmd(request, "FAKE_TRXC_DELAY", 1):
 			log.debug("(%s) Recv FAKE_TRXC_DELAY cmd", self)
 
-			self.ctrl_if.rsp_delay_ms = int(request[1])
+			# Parse / validate the delay (it ends up in time.sleep())
+			delay_ms = int(request[1])
+			if delay_ms < 0 or delay_ms > 60 * 1000:
+				log.error("(%s) FAKE_TRXC_DELAY shall be in "
+					"range 0..60000 ms" % self)
+				return -1
+
+			self.ctrl_if.rsp_delay_ms = delay_ms
 			log.info("(%s) Artificial TRXC delay set to %d",
 				 self, self.ctrl_if.rsp_delay_ms)
 
